@@ -69,7 +69,9 @@ package protocol
 //@ func UnmarshalServerInfoResponse serves C14
 //@   safety
 //@ func UnmarshalPropagatedRequest serves C14
+//@   returns (msg, err)
 //@   safety
+//@   ensures [always-a-message-object] msg != nil
 //@ func UnmarshalPropagatedResponse serves C14
 //@   safety
 //@ func UnmarshalPartitionStatusRequest serves C14
